@@ -11,7 +11,7 @@ Definition numeric (t : ty) : bool := match t with TInt | TLong | TFloat => true
 Definition integral (t : ty) : bool := match t with TInt | TLong => true | _ => false end.
 Definition boolish (t : ty) : bool := match t with TBool | TBit => true | _ => false end.
 Definition castable (t : ty) : bool := match t with TInt | TLong | TFloat | TBit => true | _ => false end.
-Definition scalar (t : ty) : bool := match t with TArr _ | TVoid => false | _ => true end.
+Definition scalar (t : ty) : bool := match t with TArr _ | TVoid | TClass _ => false | _ => true end.
 Definition is_tstr (t : ty) : bool := match t with TStr => true | _ => false end.
 Definition is_void (t : ty) : bool := match t with TVoid => true | _ => false end.
 
@@ -139,6 +139,7 @@ Section Check.
         | Some (t, false), Some ta => if assignable t ta then Some t else None
         | _, _ => None
         end
+    | _ => None        (* the object layer is checked by ClassTyping.v *)
     end.
 
   Definition nonvoid (o : option ty) : option ty :=
@@ -231,6 +232,7 @@ Section Check.
         end
     | SExpr a => match type_expr G a with Some _ => Some G | None => None end
     | SBlock ss => match checks ([] :: G) ss with Some _ => Some G | None => None end
+    | SDestroy _ => None
     end.
 
   Fixpoint check_stmts (ret : ty) (G : tenv) (ss : list stmt) : option tenv :=
@@ -270,12 +272,12 @@ Section Check.
 End Check.
 
 Definition sig_of (p : program) (f : string) : option (list ty * ty) :=
-  match find (fun d => String.eqb (fn_name d) f) p with
+  match find (fun d => String.eqb (fn_name d) f) (p_fns p) with
   | Some d => Some (map fst (fn_params d), fn_ret d)
   | None => None
   end.
 
 Definition check_program (p : program) : bool :=
-  nodup_names (map fn_name p) &&
-  forallb (check_fn (sig_of p)) p &&
+  nodup_names (map fn_name (p_fns p)) &&
+  forallb (check_fn (sig_of p)) (p_fns p) &&
   match sig_of p "main" with Some ([], TVoid) => true | _ => false end.
